@@ -23,6 +23,7 @@ type roArenaT struct {
 	buf, want []byte
 	off       int
 	unplaced  int
+	placed    [][]byte // an argument equal to an earlier one IS the earlier one (arguments aliasing each other)
 }
 
 var roArena *roArenaT // non-nil only while an ro case runs (sequential phase only)
@@ -41,10 +42,16 @@ func (a *roArenaT) place(b []byte) []byte {
 		a.unplaced++
 		return append([]byte{}, b...)
 	}
+	for _, p := range a.placed {
+		if eq(p, b) {
+			return p
+		}
+	}
 	copy(a.buf[a.off:], b)
 	copy(a.want[a.off:], b)
 	s := a.buf[a.off : a.off+len(b)] // capacity: everything behind it, the next arguments included
 	a.off += len(b)
+	a.placed = append(a.placed, s)
 	return s
 }
 
@@ -180,6 +187,19 @@ func (g *gen) aliasCases() {
 			}
 		}
 		g.r.Do("ethalias", itoa(c), itoa(g.lenFor(c)), g.seed(), itoa(g.etype()), itoa(so), itoa(sl), itoa(do), itoa(dl))
+	}
+	// arguments aliasing each other: the same MAC slice as source and destination, the payload equal to a MAC
+	for i := 0; i < n/4+5; i++ {
+		m := g.mac()
+		c := g.capFor(60)
+		for _, cs := range [][]string{
+			{"ether", itoa(c), itoa(g.lenFor(c)), g.seed(), itoa(g.etype()), lib.Hex(m), lib.Hex(m)},
+			{"ethpl", itoa(c), itoa(g.lenFor(c)), g.seed(), "2048", lib.Hex(m), lib.Hex(m), g.mode(), lib.Hex(m), "0"},
+			{"arp", "64", "64", g.seed(), "1", lib.Hex(m), lib.Hex(g.ip4()), lib.Hex(m), lib.Hex(g.ip4())},
+		} {
+			obs, _ := roExec(cs[0], cs[1:])
+			g.r.Case("ro", cs, obs)
+		}
 	}
 	_ = fmt.Sprint
 }
